@@ -192,8 +192,12 @@ func (f *file) rotate() {
 		// negative. Avoid infinite loops by delaying at least a short interval.
 		//
 		// TODO(rfindley): instead, just also mock AfterFunc.
+		//
+		// (Only a delay that is not positive is replaced: a process that
+		// starts less than a minute before the expiry must still rotate at
+		// the expiry, or its counts land in an expired file.)
 		const minDelay = 1 * time.Minute
-		if delay < minDelay {
+		if delay <= 0 {
 			delay = minDelay
 		}
 		// TODO(rsc): Does this do the right thing for laptops closing?
